@@ -281,6 +281,95 @@ META = {
         change='existing source nodes are collected by str(node), looked up by str_context()',
         needs='an existence mapping keyed on a design-variable or metric node of the source graph',
         strengthened='C20 sources now include design-variable / metric nodes and existence mappings are keyed on them'),
+    # ---- third round ----
+    'C02-c': dict(
+        breaks='C02', file='adsg_core/graph/adsg.py (DSG.initialize_choices)',
+        change='nodes incompatible with initially confirmed nodes are removed IN PLACE from the graph being initialised',
+        needs='one builder object used for a second set_start_nodes call after a first call that pruned an '
+              'incompatible node and removed nothing unreachable: the builder\'s own graph has lost nodes',
+        strengthened=None),
+    'C03-c': dict(
+        breaks='C03', file='adsg_core/optimization/hierarchy/complete.py (_get_nodes_existence)',
+        change='the `removed_by` default is hoisted out of the per-node loop and leaks from the previous node',
+        needs='complete encoder; a design-variable node that is itself an option of a selection choice, preceded (in '
+              'name order) by a conditional design-variable node that an incompatibility constraint removes, and a '
+              'vector taking the remover option: the node is in the instance without value while its variable is '
+              'reported inactive',
+        strengthened='C03: a design-variable node present in the instance must have an active variable (C01/C16 '
+                     'already required a value); generator class "design-variable node as option + incompatibility '
+                     'with a design-variable node"; corpus/dv_option_after_removed_dv.json'),
+    'C06-c': dict(
+        breaks='C06', file='adsg_core/graph/incompatibility.py (get_incompatibility_deriving_nodes)',
+        change='`continue` -> `break` at a selection-choice in-edge',
+        needs='an incompatible node (or necessary deriver) that is an option shared between branches with a choice '
+              'in-edge FOLLOWED by another deriving in-edge, and the incompatible partner selected first',
+        strengthened=None),
+    'C07-c': dict(
+        breaks='C07', file='adsg_core/optimization/assign_enc/lazy/imputation/delta.py (LazyDeltaImputer._impute)',
+        change='the imputer returns the trial vector it fed to the decoder instead of the canonical one (with -1 markers)',
+        needs='a lazy connection encoder with conditionally active variables (rarely selected automatically), a raw '
+              'vector that needs repair, and a repaired design with inactive variables',
+        strengthened='C07/C03 run half of the connection cases with selection reduced to ONE registered encoder '
+                     '(rotating over the eager, lazy and enumerating families: "every registered connection encoder"); '
+                     'KF-EAGER-ACT no longer matches lazy encoders (C10 caught it from the start)'),
+    'C08-c': dict(
+        breaks='C08', file='adsg_core/graph/adsg.py (get_for_adjusted)',
+        change='same sharing of the choice-constraint list as C18-a (found independently)',
+        needs='a graph that already has a constraint is copied / derived, then constrain_choices on either side',
+        strengthened=None),
+    'C09-c': dict(
+        breaks='C09 (graph-level validity)', file='adsg_core/graph/adsg_nodes.py (validate_conn_edges)',
+        change='"vectorised" matrix construction `matrix[i, j] += 1` with repeated index pairs counts each pair once',
+        needs='an edge list with the same source-target pair more than once passed to validate_conn_edges',
+        strengthened='none needed: C11 validates sets with parallel edges at graph level and catches it; C09 itself is '
+                     'the matrix-level check (validate_matrix) and is not affected'),
+    'C11-c': dict(
+        breaks='C11', file='adsg_core/graph/adsg_nodes.py (ConnectorDegreeGroupingNode.get_combined_deg)',
+        change='bounded members that come AFTER an open-ended member are not counted in the group\'s minimum',
+        needs='a grouping node with an open-ended member inserted before a bounded member with non-zero minimum',
+        strengthened='group members may be open-ended in the C11/C08 classes (which also surfaced FX-35 and '
+                     'KF-GRP-OPEN); KF-GRP-REP used to swallow it and now only matches processor-level extra sets'),
+    'C12-c': dict(
+        breaks='C12', file='adsg_core/optimization/assign_enc/selector.py (stage 3_all)',
+        change='eager candidates of the late stage are built with the LAZY imputer',
+        needs='settings with more than 1000 connection sets whose lazy candidates all have poor scores (derangements '
+              'of 7): the selected eager coding crashes on the first vector that needs imputation',
+        strengthened='C12 gained the large-settings class (derangements of 7, 5-to-5 assignment, permutations of 6; '
+                     'oracle: the library\'s own validate_matrix, range, fixed point, no exception)'),
+    'C14-c': dict(
+        breaks='C14 (with a fixed variable: C15)', file='adsg_core/optimization/graph_processor.py (get_graph)',
+        change='the re-decode after an infeasible connection scenario passes the FULL vector (fixed values spliced in)',
+        needs='fast encoder, a fixed selection variable, a vector landing in an infeasible connection scenario not yet '
+              'excluded: ValueError "Incorrect number of design variable values"',
+        strengthened='none: by its author\'s own account at the edge of C14 (needs fix_des_var); C15 and C05 catch it'),
+    'C16-c': dict(
+        breaks='C16', file='adsg_core/optimization/dv_output_defs.py (DesVar.__eq__/__hash__)',
+        change='design variables compare and hash by NAME',
+        needs='two design-variable nodes with the same name (one "size" per option subtree): values are read from and '
+              'written to the wrong slot',
+        strengthened='design-variable nodes may carry a repeated display name (label) in the C16 class'),
+    'C17-c': dict(
+        breaks='C17', file='adsg_core/graph/traversal.py (traverse_until_choice_nodes)',
+        change='the confirmed-node walk follows every edge type except INCOMPATIBILITY (so also EXCLUDES)',
+        needs='a connection choice with an exclusion from a permanent source to a conditional target that has metric '
+              'nodes below it: conditional metrics count as permanent',
+        strengthened='C17 class with metrics below (conditional) connector nodes and exclusion edges'),
+    'C18-c': dict(
+        breaks='C18', file='adsg_core/graph/adsg.py (DSG.__hash__)',
+        change='hash over frozenset(g.nodes) / frozenset(g.edges()): parallel edges collapse',
+        needs='an edit that adds or removes an edge parallel to an existing one',
+        strengthened=None),
+    'C19-c': dict(
+        breaks='C19', file='adsg_core/optimization/assign_enc/time_limiter.py (_inner_run)',
+        change='`raise TimeoutError` moved inside `if thread.is_alive():`',
+        needs='the limit expires while the worker is already gone (function ending within ~1 ms of the limit, or '
+              'killing its own thread): run_timeout returns None',
+        strengthened=None),
+    'C20-c': dict(
+        breaks='C20', file='adsg_core/graph/sup/dsg.py (SupSelChoiceOptionMapping.initialize)',
+        change='mapping targets are re-keyed by str_context(), which ignores SupNode.ref',
+        needs='supplementary option nodes with the same name and different ref',
+        strengthened='supplementary options may share their name and differ in ref'),
 }
 
 
